@@ -23,6 +23,11 @@ type solver struct {
 	elapsed time.Duration
 	timeout int // ms
 	fallbacks int
+	alt       *solver // secondary solver of the portfolio (same session text)
+	answered  *solver // which solver produced the last verdict (for get-value)
+	altUsed   int
+	hard      bool // this session contains terms the incremental core does not decide quickly
+	fastMs    int
 	logw    io.Writer
 }
 
@@ -36,6 +41,10 @@ func newSolver(kind string, timeoutMs int) (*solver, error) {
 	case "z3-new":
 		cmd = exec.Command("z3-new", "-in", "-smt2", fmt.Sprintf("-t:%d", timeoutMs))
 	case "cvc5":
+		// integer encoding of bit-vectors (mod 2^k semantics kept): decides the linear
+		// threshold arithmetic over 64-bit powers that bit-blasting does not finish
+		cmd = exec.Command("cvc5", "--incremental", "--lang=smt2", fmt.Sprintf("--tlimit-per=%d", timeoutMs), "--produce-models", "--solve-bv-as-int=sum")
+	case "cvc5-bv":
 		cmd = exec.Command("cvc5", "--incremental", "--lang=smt2", fmt.Sprintf("--tlimit-per=%d", timeoutMs), "--produce-models")
 	default:
 		return nil, fmt.Errorf("unknown solver %q", kind)
@@ -52,13 +61,16 @@ func newSolver(kind string, timeoutMs int) (*solver, error) {
 	if err := cmd.Start(); err != nil {
 		return nil, err
 	}
-	s := &solver{kind: kind, cmd: cmd, in: in, out: bufio.NewReaderSize(outp, 1<<16), timeout: timeoutMs}
+	s := &solver{kind: kind, cmd: cmd, in: in, out: bufio.NewReaderSize(outp, 1<<16), timeout: timeoutMs, fastMs: 250}
 	return s, nil
 }
 
 func (s *solver) close() {
 	if s == nil || s.cmd == nil {
 		return
+	}
+	if s.alt != nil {
+		s.alt.close()
 	}
 	s.in.Close()
 	s.cmd.Process.Kill()
@@ -70,14 +82,24 @@ func (s *solver) close() {
 func (s *solver) reset(epoch int) {
 	s.pending.Reset()
 	s.epoch = epoch
-	if s.kind == "cvc5" {
+	s.hard = false
+	if strings.HasPrefix(s.kind, "cvc5") {
 		s.pending.WriteString("(reset)\n(set-option :produce-models true)\n(set-logic ALL)\n")
 	} else {
 		s.pending.WriteString("(reset)\n(set-option :produce-models true)\n")
 	}
+	s.answered = s
+	if s.alt != nil {
+		s.alt.reset(epoch)
+	}
 }
 
-func (s *solver) send(text string) { s.pending.WriteString(text) }
+func (s *solver) send(text string) {
+	s.pending.WriteString(text)
+	if s.alt != nil {
+		s.alt.pending.WriteString(text)
+	}
+}
 
 // roundtrip flushes pending text plus cmd and reads response lines up to a marker.
 func (s *solver) roundtrip(cmd string) ([]string, error) {
@@ -126,22 +148,49 @@ func (r satResult) String() string {
 	return "unknown"
 }
 
-// checkSat decides the current context. z3's incremental core is weak on
-// division/multiplication-heavy bit-vector goals, so the bit-blasting tactic is
-// used first (it works inside push/pop scopes); the incremental core is the
-// fallback when the tactic gives up.
+// checkSat decides the current context. The incremental core is tried first
+// under a short timeout (it answers the many small branch queries in
+// milliseconds); z3's incremental core is weak on division/multiplication-heavy
+// bit-vector goals, so on "unknown" the bit-blasting tactic (which works inside
+// push/pop scopes) decides under the full timeout. Once a session needed the
+// tactic it is used directly for the rest of the session.
 func (s *solver) checkSat(hasUF bool) (satResult, string) {
-	if s.kind == "cvc5" {
+	r, d := s.checkSat1(hasUF)
+	s.answered = s
+	if r == resUnknown && s.alt != nil {
+		// portfolio: the secondary solver has received the same session text
+		s.altUsed++
+		r2, d2 := s.alt.checkSat1(hasUF)
+		s.queries += 0
+		s.elapsed += 0
+		if r2 != resUnknown {
+			s.answered = s.alt
+			return r2, d2
+		}
+		return r2, d + " / alt: " + d2
+	}
+	return r, d
+}
+
+func (s *solver) checkSat1(hasUF bool) (satResult, string) {
+	if strings.HasPrefix(s.kind, "cvc5") {
 		return s.checkSatCmd("(check-sat)")
 	}
 	tactic := "(check-sat-using qfbv)"
 	if hasUF {
 		tactic = "(check-sat-using qfufbv)"
 	}
-	r, d := s.checkSatCmd(tactic)
-	if r == resUnknown {
+	if !s.hard {
+		r, d := s.checkSatCmd(fmt.Sprintf("(set-option :timeout %d)\n(check-sat)", s.fastMs))
+		if r != resUnknown {
+			return r, d
+		}
+		s.hard = true
 		s.fallbacks++
-		r2, d2 := s.checkSatCmd("(check-sat)")
+	}
+	r, d := s.checkSatCmd(fmt.Sprintf("(set-option :timeout %d)\n%s", s.timeout, tactic))
+	if r == resUnknown {
+		r2, d2 := s.checkSatCmd(fmt.Sprintf("(set-option :timeout %d)\n(check-sat)", s.timeout))
 		if r2 != resUnknown {
 			return r2, d2
 		}
@@ -183,6 +232,9 @@ func (s *solver) checkSatCmd(cmd string) (satResult, string) {
 
 // getValues evaluates the given expressions (by solver name) in the current model.
 func (s *solver) getValues(names []string) (map[string]uint64, error) {
+	if s.answered != nil && s.answered != s {
+		return s.answered.getValues(names)
+	}
 	res := map[string]uint64{}
 	const chunk = 200
 	for i := 0; i < len(names); i += chunk {
